@@ -122,6 +122,9 @@ impl MT942 {
         // Parse optional information to account owner
         let field_86 = parser.parse_optional_field::<Field86>("86")?;
 
+        // Reject content left after the last field of the message
+        verify_parser_complete(&parser)?;
+
         Ok(MT942 {
             field_20,
             field_21,
